@@ -249,8 +249,19 @@ XalanEXSLTFunctionPadding::execute(
     const XalanDOMString&               thePaddingString = theSize == 2 ? args[1]->str(executionContext) : m_space;
     const XalanDOMString::size_type     thePaddingStringLength = thePaddingString.length();
 
-    if (theLength == 0.0 || thePaddingStringLength == 0)
+    // A length that is zero, negative or NaN results in an empty string.
+    if (!(theLength > 0.0) || thePaddingStringLength == 0)
     {
+        return executionContext.getXObjectFactory().createStringReference(s_emptyString);
+    }
+    else if (!(theLength < double(XalanDOMString::npos)))
+    {
+        // No string can be that long.
+        generalError(
+            executionContext,
+            context,
+            locator);
+
         return executionContext.getXObjectFactory().createStringReference(s_emptyString);
     }
     else
